@@ -1078,4 +1078,110 @@ theorem script2idx_script (H : Bytes → Nat) (a : Addr) (hv : a.idx < 5)
     script2idx H a.script = some (a.idx, H a.payload) := by
   simp [script2idx, scriptForm_script a hv hl]
 
+/-! ### converse: a recognised script IS the standard script of the address it is indexed under -/
+
+theorem u8_of_toNat {x : UInt8} {n : Nat} (hn : n < 256) (h : x.toNat = n) : x = UInt8.ofNat n := by
+  apply UInt8.toNat_inj.1
+  rw [h]; simp; omega
+
+theorem scriptForm_p2kh (s : Bytes) (hl : s.length = 25) (h0 : byteAt s 0 = 0x76) (h1 : byteAt s 1 = 0xa9)
+    (h2 : byteAt s 2 = 0x14) (h23 : byteAt s 23 = 0x88) (h24 : byteAt s 24 = 0xac) :
+    s = [0x76, 0xa9, 0x14] ++ (s.drop 3).take 20 ++ [0x88, 0xac] ∧ ((s.drop 3).take 20).length = 20 := by
+  iterate 26 (rcases s with _ | ⟨_, s⟩ <;> try (simp at hl; done))
+  simp [byteAt] at h0 h1 h2 h23 h24
+  simp [u8_of_toNat (by omega) h0, u8_of_toNat (by omega) h1, u8_of_toNat (by omega) h2, u8_of_toNat (by omega) h23, u8_of_toNat (by omega) h24]
+
+theorem scriptForm_p2sh (s : Bytes) (hl : s.length = 23) (h0 : byteAt s 0 = 0xa9) (h1 : byteAt s 1 = 0x14)
+    (h22 : byteAt s 22 = 0x87) :
+    s = [0xa9, 0x14] ++ (s.drop 2).take 20 ++ [0x87] ∧ ((s.drop 2).take 20).length = 20 := by
+  iterate 24 (rcases s with _ | ⟨_, s⟩ <;> try (simp at hl; done))
+  simp [byteAt] at h0 h1 h22
+  simp [u8_of_toNat (by omega) h0, u8_of_toNat (by omega) h1, u8_of_toNat (by omega) h22]
+
+theorem scriptForm_wit20 (s : Bytes) (hl : s.length = 22) (h0 : byteAt s 0 = 0) (h1 : byteAt s 1 = 20) :
+    s = [0x00, 0x14] ++ (s.drop 2).take 20 ∧ ((s.drop 2).take 20).length = 20 := by
+  iterate 23 (rcases s with _ | ⟨_, s⟩ <;> try (simp at hl; done))
+  simp [byteAt] at h0 h1
+  simp [u8_of_toNat (by omega) h0, u8_of_toNat (by omega) h1]
+
+theorem scriptForm_wit32 (s : Bytes) (v : Nat) (hv : v < 256) (hl : s.length = 34) (h0 : byteAt s 0 = v) (h1 : byteAt s 1 = 32) :
+    s = [UInt8.ofNat v, 0x20] ++ (s.drop 2).take 32 ∧ ((s.drop 2).take 32).length = 32 := by
+  iterate 35 (rcases s with _ | ⟨_, s⟩ <;> try (simp at hl; done))
+  simp [byteAt] at h0 h1
+  simp [u8_of_toNat hv h0, u8_of_toNat (by omega) h1]
+
+/-- converse of `scriptForm_script`: a script that Script2Idx recognises IS the standard script of the
+    address (type, payload) it reports, and the payload has the address type's length. -/
+theorem scriptForm_converse (s : Bytes) (i : Nat) (p : Bytes) (h : scriptForm s = some (i, p)) :
+    s = Addr.script ⟨i, p⟩ ∧ i < 5 ∧ p.length = (if i < 3 then 20 else 32) := by
+  unfold scriptForm at h
+  split at h
+  · rename_i hc
+    obtain ⟨hl, h0, h1, h2, h23, h24⟩ := hc
+    injection h with h; injection h with hi hp; subst hi; subst hp
+    have := scriptForm_p2kh s hl h0 h1 h2 h23 h24
+    exact ⟨this.1, by omega, by simpa using this.2⟩
+  split at h
+  · rename_i hc
+    obtain ⟨hl, h0, h1, h22⟩ := hc
+    injection h with h; injection h with hi hp; subst hi; subst hp
+    have := scriptForm_p2sh s hl h0 h1 h22
+    exact ⟨this.1, by omega, by simpa using this.2⟩
+  split at h
+  · rename_i hc
+    obtain ⟨hl, h0, h1⟩ := hc
+    injection h with h; injection h with hi hp; subst hi; subst hp
+    have := scriptForm_wit20 s hl h0 h1
+    exact ⟨this.1, by omega, by simpa using this.2⟩
+  split at h
+  · rename_i hc
+    obtain ⟨hl, h0, h1⟩ := hc
+    injection h with h; injection h with hi hp; subst hi; subst hp
+    have := scriptForm_wit32 s 0 (by omega) hl h0 h1
+    exact ⟨this.1, by omega, by simpa using this.2⟩
+  split at h
+  · rename_i hc
+    obtain ⟨hl, h0, h1⟩ := hc
+    injection h with h; injection h with hi hp; subst hi; subst hp
+    have := scriptForm_wit32 s 0x51 (by omega) hl h0 h1
+    exact ⟨this.1, by omega, by simpa using this.2⟩
+  · cases h
+
+/-- `hinj` of `balances_eq_projection` follows from injectivity of the hash on the payloads in play. -/
+theorem hinj_of_payload_inj (H : Bytes → Nat) (a : Addr) (hv : a.idx < 5)
+    (hl : a.payload.length = if a.idx < 3 then 20 else 32) (o : Out)
+    (hH : ∀ p, scriptForm o.script = some (a.idx, p) → H p = H a.payload → p = a.payload)
+    (hk : script2idx H o.script = script2idx H a.script) : o.script = a.script := by
+  rw [script2idx_script H a hv hl] at hk
+  unfold script2idx at hk
+  split at hk
+  · rename_i i p hf
+    injection hk with hk; injection hk with hi hp
+    subst hi
+    have := hH p hf hp
+    have hc := (scriptForm_converse _ _ _ hf).1
+    rw [hc, this]
+  · cases hk
+
+/-- a record exists for an address exactly when GetAllUnspent reports something for it — whatever the
+    values of the outputs (with `min = 0` a record whose outputs are all worth 0 has `Value = 0` and stays) -/
+theorem record_iff_nonempty {H : Bytes → Nat} {s : State} (a : Addr) (h : Inv H s) (hon : s.on = true) :
+    (aget (a.idx, H a.payload) s.bal).isSome = true ↔ getAllUnspent H s a ≠ [] := by
+  have hK := h.2 hon (a.idx, H a.payload)
+  unfold getAllUnspent
+  cases hb : aget (a.idx, H a.payload) s.bal with
+  | none => simp
+  | some b =>
+    rw [hb] at hK
+    obtain ⟨_, hne, hiff, _⟩ := hK
+    simp only [Option.isSome_some, true_iff]
+    obtain ⟨i, hi⟩ := List.exists_mem_of_ne_nil _ hne
+    obtain ⟨o, hc, _⟩ := (hiff i).1 hi
+    obtain ⟨r, hr, ho⟩ := coinsOf_some.1 hc
+    intro hnil
+    have : (⟨r.txid, i.2, o.value, r.inBlock, r.coinbase⟩ : Unspent) ∈ b.unsp.filterMap (getRec s.utxo) :=
+      List.mem_filterMap.2 ⟨i, hi, by simp [getRec, hr, ho]⟩
+    rw [hnil] at this
+    cases this
+
 end GocoinV.Proofs.C17
